@@ -146,3 +146,91 @@ func VerifC15AccessBlocked() {
 		verifReach("served")
 	}
 }
+
+// verifSeqFinder15 answers the i-th request with the i-th result.
+type verifSeqFinder15 struct {
+	res []agd.DeviceResult
+	n   *int
+}
+
+func (f verifSeqFinder15) Find(context.Context, *dns.Msg, netip.AddrPort, netip.AddrPort) agd.DeviceResult {
+	r := f.res[*f.n]
+	*f.n++
+	return r
+}
+
+// VerifC15Sequence: over 2..3 consecutive requests of different requesters through
+// the real access / rate-limit middleware (recycled request information) and the real
+// main middleware, exactly the queries attributed to a profile are billed, exactly
+// those of profiles with query logging are logged, and a query of a client without a
+// profile leaves no record, whatever came before it.
+//
+//verif:harness name=H15g-sequence tier=quick,thorough bounds="2..3 consecutive queries; each requester from {no profile, profile with query logging, profile without query logging}; the request-information pool hands released objects back" reach=done,anonymous-after-profile maxpaths=20000
+//verif:assume device finder, GeoIP, filter storage, upstream, billing and query log are stubs; global access manager allows everything
+func VerifC15Sequence() {
+	verifPoolMode(1)
+	profs := []*agd.Profile{
+		nil,
+		{ID: "prof0001", Access: access.EmptyProfile{}, FilterConfig: &filter.ConfigClient{}, BlockingMode: &dnsmsg.BlockingModeNullIP{}, FilteredResponseTTL: 10 * time.Second, QueryLogEnabled: true, IPLogEnabled: true},
+		{ID: "prof0002", Access: access.EmptyProfile{}, FilterConfig: &filter.ConfigClient{}, BlockingMode: &dnsmsg.BlockingModeNullIP{}, FilteredResponseTTL: 10 * time.Second},
+	}
+	n := 2 + verifChoice(2)
+	var kinds []int
+	var results []agd.DeviceResult
+	for i := 0; i < n; i++ {
+		k := verifChoice(3)
+		kinds = append(kinds, k)
+		if k == 0 {
+			results = append(results, nil)
+		} else {
+			results = append(results, &agd.DeviceResultOK{Profile: profs[k], Device: &agd.Device{ID: "dev12345"}})
+		}
+	}
+	msgs, err := dnsmsg.NewConstructor(&dnsmsg.ConstructorConfig{
+		Cloner:              agdtest.NewCloner(),
+		BlockingMode:        &dnsmsg.BlockingModeNullIP{},
+		StructuredErrors:    agdtest.NewSDEConfig(false),
+		FilteredResponseTTL: 10 * time.Second,
+	})
+	verifAssume(err == nil)
+	calls := 0
+	mw := New(&Config{
+		Logger:           slogutil.NewDiscardLogger(),
+		Messages:         msgs,
+		FilteringGroup:   &agd.FilteringGroup{ID: "fg", FilterConfig: &filter.ConfigGroup{}},
+		ServerGroup:      &agd.ServerGroup{},
+		Server:           &agd.Server{Name: "s", Protocol: agd.ProtoDNS},
+		StructuredErrors: agdtest.NewSDEConfig(false),
+		AccessManager:    verifAllowAll15{},
+		DeviceFinder:     verifSeqFinder15{res: results, n: &calls},
+		ErrColl:          agdtest.NewErrorCollector(),
+		GeoIP:            verifGeo15{asn: 64501},
+		Metrics:          EmptyMetrics{},
+		Protocols:        []agd.Protocol{},
+	})
+	chain := mainmw.VerifNewChainEnv()
+	h := mw.Wrap(chain.Handler())
+	wantLogged, wantBilled := 0, 0
+	for i := 0; i < n; i++ {
+		rw := &verifRW15{addr: [4]byte{198, 51, 100, byte(7 + i)}}
+		req := &dns.Msg{}
+		req.SetQuestion("example.org.", dns.TypeA)
+		ctx := dnsserver.ContextWithRequestInfo(context.Background(), &dnsserver.RequestInfo{StartTime: time.Unix(1_700_000_000, 0)})
+		serveErr := h.ServeDNS(ctx, rw, req)
+		verifAssert("no-error", serveErr == nil)
+		verifAssert("query-answered", rw.writes == 1)
+		if kinds[i] != 0 {
+			wantBilled++
+		}
+		if kinds[i] == 1 {
+			wantLogged++
+		}
+		logged, billed, _ := chain.Counts()
+		verifAssert("billed-iff-attributed-to-a-profile", billed == wantBilled)
+		verifAssert("logged-iff-attributed-to-a-profile-with-query-logging", logged == wantLogged)
+		if i > 0 && kinds[i] == 0 && kinds[i-1] != 0 {
+			verifReach("anonymous-after-profile")
+		}
+	}
+	verifReach("done")
+}
